@@ -77,7 +77,7 @@ fn check_mode(ctx: &Ctx, b: &Built, da: &ModuleD, mode: &str, edit_bytes: &[u8],
         if b.plan.low_pc_at_body { "body" } else { "size-leb" },
         b.plan.sequences.len(),
         if b.plan.row_at_function_start { " +start-rows" } else { "" }
-    );
+    ) + if b.plan.base_at_size_field { " +base@size-leb" } else { "" };
     let cfg = wal::Cfg {
         dwarf: true,
         ..wal::Cfg::plain()
